@@ -16,6 +16,12 @@ CHECKS["C01"] = ("reference-model monitor: generated core-language programs (typ
 CHECKS["C02"] = ("relational monitor: the same generated program (integer/struct/array/enum/loop programs, f32/f64 arithmetic programs, pinned probes) compiled by the real compiler for native and wasm; native executable vs .wasm under node with the shipped runtime.js; numeric comparison of float lines, termination-kind comparison",
  "Held on N programs accepted by both back ends: identical value sequences (floats within 1e-12 / 1e-5 for f32) and the same termination kind (normal vs panic/trap) on pointer size 8 (native) and 4 (wasm), including heap growth in runtime.js and out-of-bounds panics.",
  "programs rejected by either target or crashing the compiler are out of scope and only counted; the wasm back end lacks closures, results and strings, so those features are compared by C01 only", "DESIGN.md §3 C02")
+CHECKS["C04"] = ("reference-model monitor with dynamic index semantics over generated fixed-array programs (literal, const, reassigned, branch/match-dependent, loop-carried, incremented, borrowed, closure-modified, arithmetic and opaque indices) with canary locals; native run (thorough: valgrind on a share)",
+ "Held on N programs: every program was either rejected with only T0028/T0009 (never when all indices were in-range literals/consts) or printed exactly the reference's lines — the element selected by the value the index has at that moment, negative values counting from the end — with untouched canaries, or panicked exactly where the reference does.",
+ "scenario templates are the rig's reading of the property's index classes", "DESIGN.md §3 C04")
+CHECKS["C08"] = ("reference-model monitor over generated dynamic-array / string histories (literal, appends across growth thresholds, get/set/len/iteration, literal / let-bound / opaque indices at and around the bounds) on native (stdout to a file) and wasm; pinned probes",
+ "Held on N histories: every index valid for the current length (negative and post-append positions included) was accepted and returned the stored element; every out-of-range index ended the program with an 'index out of bounds' panic and non-zero status after delivering all previously printed lines (or, for a compile-time-known index only, was rejected with T0009); no valgrind report in thorough.",
+ "one array and one string per history; maps are outside this property", "DESIGN.md §3 C08")
 CHECKS["C06"] = ("verdict monitor by construction over the real type checker (in-process pool + CLI confirmation), complete enumeration of place kind x access path x mutation form x context with a mutable-binding control group; native value witness for wrongly accepted cases",
  "Exhaustive over the finite product the property names (2359 mutants + controls): every program applying one mutation form to one immutable place was rejected by the real compiler while the same program with the binding made mutable was accepted, so each verdict is attributable to the immutability rule.",
  "the enumerated product is the rig's reading of the property's dimensions; syntactic contexts outside the seven listed are not covered", "DESIGN.md §3 C06")
